@@ -762,6 +762,9 @@ addmember(struct structbuilder *b, struct qualtype mt, char *name, int align, un
 	if (mt.type->incomplete) {
 		if (mt.type->kind != TYPEARRAY)
 			error(&tok.loc, "struct member '%s' has incomplete type", name);
+		/* 6.7.2.1p3 */
+		if (t->kind != TYPESTRUCT || !t->u.structunion.members)
+			error(&tok.loc, "flexible array member '%s' must follow a named member of a struct", name);
 		t->flexible = true;
 	}
 	if (mt.type->flexible) {
